@@ -47,9 +47,6 @@ def specErrno : Errno → Nat
   | .ENOTEMPTY => 55 | .ENOTTY => 59 | .ENXIO => 60 | .EOVERFLOW => 61 | .EPERM => 63 | .EPIPE => 64
   | .ERANGE => 68 | .EROFS => 69 | .ESPIPE => 70 | .ESRCH => 71 | .ETXTBSY => 74 | .EXDEV => 75
 
-/-- the host errno values `wasiErrno()` has no row for -/
-def unmappedErrnos : List Errno := [.ENAMETOOLONG, .ENOTEMPTY, .ELOOP, .EOVERFLOW, .ENOSYS]
-
 /-! ## congruence of the I/O cores in the transfer function -/
 
 theorem readIovecs_length (m : Mem) (ptr stride bo lo : Nat) (cnt : Nat) (segs : List (Nat × Nat))
